@@ -79,6 +79,8 @@ func runC10(c *Ctx) {
 	c.rule("set-guard", "(shared with C16) every reflect Set / Append / SetMapIndex on the way back is type-tied to its destination", 15)
 	c.rule("convert-guard", "(shared with C16) every reflect Convert on the way back is guarded by ConvertibleTo of the same pair or is convertible by construction (a panic while reversing loses the written value)", 8)
 	c.rule("unset-stays-unset", "every Unmangle that parses or converts does so only after a nil test of its input that returns the zero of the original field type", 3)
+	c.rule("unset-typed-as-field", "every reflect.Zero returned by helper.OnImplements (the unset value of a text-unmarshaler field) has the field's own type: the zero of the pointer-stripped type only where no pointer was stripped, the nil pointer to it only where one was", 2)
+	c.rule("recursion-excludes-textm", "the type a nested Transformer is created for (after stripping the outer pointer / slice / array) was itself tested, in both forms, not to implement encoding.TextUnmarshaler", 1)
 	c.rule("should-recurse-table", "ShouldRecurse is a constant per mangler: false for the flattening mangler (it walks nested structs itself), true for all others", 9)
 
 	w := c.W
@@ -104,6 +106,8 @@ func runC10(c *Ctx) {
 	c16AnonStructOnly(c, "anon-struct-only")
 	c14AliasUnmangle(c)
 	c10Unset(c)
+	c10OnImplementsZero(c, "unset-typed-as-field")
+	c10RecursionExcludesTextM(c, "recursion-excludes-textm")
 	_ = w
 }
 
@@ -1077,5 +1081,181 @@ func c10PlaceholderTypes(c *Ctx) {
 	}
 	if n == 0 {
 		c.bad("placeholder-types", relName(f), f.Pos(), "no reflect.Zero / MakeSlice / New placeholder found")
+	}
+}
+
+// c10OnImplementsZero: helper.OnImplements strips the pointer from the field type before looking for the
+// interface. Every reflect.Zero it returns ("the field is unset") must still be typed by the *original* field
+// type: Zero(stripped) only on paths where nothing was stripped, Zero(PtrTo(stripped)) only where the pointer was
+// (D29: an unset *time.Time field came back as a time.Time and the reverse translation failed).
+func c10OnImplementsZero(c *Ctx, rule string) {
+	w := c.W
+	f := w.fn("helper", "OnImplements")
+	if !c.need(f != nil, "helper.OnImplements") {
+		return
+	}
+	c.analysed(relName(f))
+	t0 := ssa.Value(f.Params[0])
+	// the stripped type: phi [t0, Elem(t0)]; the flag: a bool phi in the same block, true exactly on the Elem edge
+	var tphi, flag *ssa.Phi
+	for _, i := range allInstrs(f) {
+		ph, ok := i.(*ssa.Phi)
+		if !ok {
+			continue
+		}
+		for _, e := range ph.Edges {
+			if cc, ok := e.(*ssa.Call); ok && cc.Call.IsInvoke() && cc.Call.Method.Name() == "Elem" && cc.Call.Value == t0 {
+				tphi = ph
+			}
+		}
+	}
+	if tphi != nil {
+		for _, i := range tphi.Block().Instrs {
+			ph, ok := i.(*ssa.Phi)
+			if !ok || ph == tphi {
+				continue
+			}
+			if b, ok := ph.Type().Underlying().(*types.Basic); !ok || b.Kind() != types.Bool {
+				continue
+			}
+			agree := true
+			for ei, e := range ph.Edges {
+				cst, ok := e.(*ssa.Const)
+				if !ok || cst.Value == nil {
+					agree = false
+					break
+				}
+				stripped := tphi.Edges[ei] != t0
+				if (cst.Value.ExactString() == "true") != stripped {
+					agree = false
+				}
+			}
+			if agree {
+				flag = ph
+			}
+		}
+	}
+	if tphi == nil || flag == nil {
+		// nothing is stripped (or not in this shape): every Zero must be of the parameter type itself
+		n := 0
+		for _, r := range returnsOf(f) {
+			if call, ok := retVals(r)[0].(*ssa.Call); ok && calleeFullName(call) == "reflect.Zero" {
+				n++
+				c.check(call.Call.Args[0] == t0, rule, relName(f)+"#zero#"+itoa(n), call.Pos(), "the unset value has the field's own type", "the unset value returned by OnImplements is typed by "+canon(call.Call.Args[0])+", which is not provably the field's own type")
+			}
+		}
+		if n == 0 {
+			c.okTrivial(rule, relName(f), f.Pos(), "OnImplements returns no reflect.Zero")
+		}
+		return
+	}
+	pb := &predBuilder{name: func(v ssa.Value) string {
+		if v == ssa.Value(flag) {
+			return "wasPointer"
+		}
+		return ""
+	}}
+	n := 0
+	for _, r := range returnsOf(f) {
+		call, ok := retVals(r)[0].(*ssa.Call)
+		if !ok || calleeFullName(call) != "reflect.Zero" {
+			continue
+		}
+		n++
+		x := call.Call.Args[0]
+		g := pb.pathCond(tphi.Block(), r.Block())
+		fb, fi := map[string]bool{}, map[string]bool{}
+		atomsOf(g, fb, fi)
+		name := relName(f) + "#zero#" + itoa(n)
+		switch {
+		case x == t0:
+			c.ok(rule, name, call.Pos(), "the unset value is typed by the field type as passed in")
+		case x == ssa.Value(tphi):
+			_, counter := forAll(g, nil, func(e env, fv bool) bool { return !fv || (fb["wasPointer"] && !e.B["wasPointer"]) })
+			c.check(counter == "", rule, name, call.Pos(), "Zero of the stripped type is returned only where no pointer was stripped",
+				"for a pointer field the unset value is the zero of the pointee type (the pointer was stripped from t above): an unset *time.Time / *net.IP field comes back as a value of the wrong type and ReverseTranslate fails with 'incompatible types' - an empty translated value can no longer be reversed")
+		default:
+			pt, ok := x.(*ssa.Call)
+			if ok && (calleeFullName(pt) == "reflect.PtrTo" || calleeFullName(pt) == "reflect.PointerTo") && pt.Call.Args[0] == ssa.Value(tphi) {
+				_, counter := forAll(g, nil, func(e env, fv bool) bool { return !fv || (fb["wasPointer"] && e.B["wasPointer"]) })
+				c.check(counter == "", rule, name, call.Pos(), "Zero of pointer-to-stripped is returned only where the pointer was stripped", "a nil pointer to the stripped type is returned on a path where the field type was not a pointer: "+counter)
+			} else {
+				c.bad(rule, name, call.Pos(), "the unset value returned by OnImplements is typed by %s, which is not provably the field's own type", canon(x))
+			}
+		}
+	}
+	if n == 0 {
+		c.bad(rule, relName(f), f.Pos(), "OnImplements has no unset (reflect.Zero) return")
+	}
+}
+
+// c10RecursionExcludesTextM: the type a nested Transformer is created for in maybeRecursivelyMangle (the field
+// type with its outer pointer / slice / array stripped) was tested, as that very value, not to implement
+// encoding.TextUnmarshaler in either form. Testing only the unstripped type lets []time.Time through: its element
+// type is rebuilt from its (unexported) fields as struct{} and no decoder can fill it any more (D30).
+func c10RecursionExcludesTextM(c *Ctx, rule string) {
+	w := c.W
+	f := w.fn("transform", "Transformer.maybeRecursivelyMangle")
+	if !c.need(f != nil, "transform.Transformer.maybeRecursivelyMangle") {
+		return
+	}
+	c.analysed(relName(f))
+	excluded := func(L ssa.Value, at, into *ssa.BasicBlock) (direct, viaPtr bool) {
+		conds := condsDominating(at)
+		// the condition of the edge at -> into itself
+		if ifi, ok := at.Instrs[len(at.Instrs)-1].(*ssa.If); ok && into != nil && at.Succs[0] != at.Succs[1] {
+			conds = append(conds, edgeCond{Cond: ifi.Cond, Val: at.Succs[0] == into})
+		}
+		for _, ec := range conds {
+			cc, ok := ec.Cond.(*ssa.Call)
+			if !ok || ec.Val || calleeFullName(cc) != "(reflect.Type).Implements" {
+				continue
+			}
+			recv := cc.Call.Value
+			if sameValue(recv, L) {
+				direct = true
+			}
+			if pc, ok := recv.(*ssa.Call); ok && (calleeFullName(pc) == "reflect.PtrTo" || calleeFullName(pc) == "reflect.PointerTo") && sameValue(pc.Call.Args[0], L) {
+				viaPtr = true
+			}
+		}
+		return
+	}
+	n := 0
+	for _, i := range allInstrs(f) {
+		st, ok := i.(*ssa.Store)
+		if !ok {
+			continue
+		}
+		fa, ok := st.Addr.(*ssa.FieldAddr)
+		if !ok || fieldName(fa.X.Type(), fa.Field) != "t" || !strings.HasSuffix(types.TypeString(fa.X.Type(), nil), "transform.Transformer") {
+			continue
+		}
+		n++
+		seen := map[ssa.Value]bool{}
+		var bad []string
+		var walk func(v ssa.Value, at, into *ssa.BasicBlock)
+		walk = func(v ssa.Value, at, into *ssa.BasicBlock) {
+			if ph, ok := v.(*ssa.Phi); ok {
+				if seen[v] {
+					return
+				}
+				seen[v] = true
+				for ei, e := range ph.Edges {
+					walk(e, ph.Block().Preds[ei], ph.Block())
+				}
+				return
+			}
+			d, p := excluded(v, at, into)
+			if !d || !p {
+				bad = append(bad, canon(v))
+			}
+		}
+		walk(st.Val, st.Block(), nil)
+		c.check(len(bad) == 0, rule, relName(f)+"#nested-type#"+itoa(n), st.Pos(), "every type a nested Transformer is created for was tested (T and *T) not to implement TextUnmarshaler",
+			"a nested Transformer is created for "+strings.Join(bad, ", ")+" without testing that very type against TextUnmarshaler (only the unstripped field type was tested): a slice or array of text-unmarshalable structs ([]time.Time) has its element type rebuilt as struct{} and can never be filled or restored")
+	}
+	if n == 0 {
+		c.bad(rule, relName(f), f.Pos(), "no nested Transformer{t: ...} construction found")
 	}
 }
